@@ -139,15 +139,18 @@ impl<P: Protocol> RemoteLink<P> {
             select! {
                 o = self.network.read() => {
                     let packet = o?;
-                    let len = {
+                    // a malformed packet ends the link, but only after the router has been
+                    // handed the packets that were decoded before it
+                    let (len, result) = {
                         let mut buffer = self.link_tx.buffer();
                         buffer.push_back(packet);
-                        self.network.readv(&mut buffer)?;
-                        buffer.len()
+                        let result = self.network.readv(&mut buffer);
+                        (buffer.len(), result)
                     };
 
                     trace!("Packets read from network, count = {}", len);
                     self.link_tx.notify().await?;
+                    result?;
                 }
                 // Receive from router when previous when state isn't in collision
                 // due to previously received data request
